@@ -911,3 +911,116 @@ Theorem too_long_leftover_refuted :
 Proof.
   split; [vm_compute; reflexivity|]. do 6 eexists. split; [vm_compute; reflexivity|]. split; [reflexivity|]. vm_compute. reflexivity.
 Qed.
+
+(* ---------- tie to the declarations generated from the sources ---------- *)
+From EC Require Import Wire.Layout Gen.SrcLayouts.
+
+(* the register images the master writes have the ETG.1000.4 shapes the device side of the model
+   (and the simulator) reads: FMMU entity (Table 56) and sync manager channel (Table 58) *)
+Lemma fmmu_register_layout :
+  match place layout_Fmmu with
+  | Ok ps => map (fun p => (pstart p, pbits p)) ps =
+             [(0, 32); (32, 16); (48, 3); (56, 3); (64, 16); (80, 3); (88, 1); (89, 1); (96, 1)]
+  | _ => False
+  end /\ lwidth layout_Fmmu = 128.
+Proof. vm_compute. split; reflexivity. Qed.
+
+Lemma sm_register_layout :
+  match place layout_SyncManagerChannel with
+  | Ok ps => map (fun p => (pstart p, pbits p)) ps = [(0, 16); (16, 16); (32, 8); (40, 8); (48, 16)]
+  | _ => False
+  end /\ lwidth layout_SyncManagerChannel = 64.
+Proof. vm_compute. split; reflexivity. Qed.
+
+(* the usage codes the model filters on are the discriminants declared in src/eeprom/types.rs:
+   SyncManagerType {.., ProcessDataWrite = 3, ProcessDataRead = 4}, FmmuUsage {.., Outputs = 1, Inputs = 2} *)
+Lemma usage_codes :
+  map vdisc (evariants enum_SyncManagerType) = [Some 0; Some 1; Some 2; Some (Z.of_N (sm_ty DOut)); Some (Z.of_N (sm_ty DIn))]%Z /\
+  map vdisc (evariants enum_FmmuUsage) = [Some 0; Some (Z.of_N (fm_ty DOut)); Some (Z.of_N (fm_ty DIn)); Some 3]%Z.
+Proof. vm_compute. split; reflexivity. Qed.
+
+(* ---------- which FMMU answers which logical byte on a configured EEPROM-path device ---------- *)
+Lemma chain_fmmu d dv fs : forall l a e, chain d dv fs a l e ->
+  forall k sm, In (k, sm) l -> exists a', a <= a' /\ a' + slen dv d k <= e /\
+    fs k = new_fmmu d a' (slen dv d k) (sm_start sm).
+Proof.
+  assert (Hmono : forall l a e, chain d dv fs a l e -> a <= e).
+  { induction l as [|x r IH]; simpl; intros a e H; [lia|]. destruct H as [_ H]. apply IH in H. lia. }
+  induction l as [|x r IH]; simpl; intros a e H k sm Hin; [contradiction|].
+  destruct H as [Hf Hc]. destruct Hin as [Hin|Hin].
+  - subst x. simpl in *. exists a. split; [lia|]. split; [apply Hmono in Hc; lia|exact Hf].
+  - destruct (IH _ _ Hc k sm Hin) as [a' [H1 [H2 H3]]]. exists a'. split; [lia|]. split; [exact H2|exact H3].
+Qed.
+
+Definition flag (rd : bool) (f : fmmu) : bool := if rd then f_rd f else f_wr f.
+Definition dir_of (rd : bool) : dir := if rd then DIn else DOut.
+
+Lemma targets_in rd fs la p :
+  In p (targets rd fs la) <-> exists j, (j < 16)%nat /\ flag rd (fs j) = true /\ fmap (fs j) la = Some p.
+Proof.
+  unfold targets, flist. rewrite in_flat_map. split.
+  - intros [f [Hf Hp]]. apply in_map_iff in Hf. destruct Hf as [j [<- Hj]]. apply in_seq in Hj.
+    exists j. split; [lia|]. unfold flag. destruct rd.
+    + destruct (f_rd (fs j)); [|contradiction]. destruct (fmap (fs j) la); [|contradiction]. destruct Hp as [->|[]]. auto.
+    + destruct (f_wr (fs j)); [|contradiction]. destruct (fmap (fs j) la); [|contradiction]. destruct Hp as [->|[]]. auto.
+  - intros [j [Hj [Hf Hm]]]. exists (fs j). split; [apply in_map; apply in_seq; lia|].
+    unfold flag in Hf. destruct rd; rewrite Hf, Hm; left; reflexivity.
+Qed.
+
+(* every FMMU that answers at all is the FMMU of one process-data sync manager of that direction *)
+Lemma answering_fmmu dv fs regs win wout rd j la p :
+  dev_post dv fs regs win wout -> d_coe dv = false ->
+  flag rd (fs j) = true -> fmap (fs j) la = Some p ->
+  let d := dir_of rd in let w := if rd then win else wout in
+  exists sm a', In (j, sm) (pdl dv d) /\ fst w <= a' /\ a' + slen dv d j <= snd w /\
+    fs j = new_fmmu d a' (slen dv d j) (sm_start sm) /\ a' <= la /\ la < a' + slen dv d j /\ p = sm_start sm + (la - a').
+Proof.
+  intros [Hw1 [Hw2 [_ [Hmap Hrest]]]] Hcoe Hfl Hm. rewrite Hcoe in Hmap. destruct Hmap as [Ci Co].
+  assert (Inv : forall d' a' sm, fs j = new_fmmu d' a' (slen dv d' j) (sm_start sm) ->
+            d' = dir_of rd /\ a' <= la /\ la < a' + slen dv d' j /\ p = sm_start sm + (la - a')).
+  { intros d' a' sm E. rewrite E in Hfl, Hm. unfold fmap, new_fmmu in Hm. cbn in Hm.
+    destruct ((a' <=? la) && (la <? a' + slen dv d' j)) eqn:R; [|discriminate]. inversion Hm; subst.
+    split; [|split; [lia|split; [lia|reflexivity]]].
+    unfold flag, new_fmmu in Hfl. destruct rd, d'; cbn in Hfl; try discriminate; reflexivity. }
+  destruct (in_fst_dec (pdl dv DIn) j) as [[sm Hin]|N1].
+  - destruct (chain_fmmu _ _ _ _ _ _ Ci _ _ Hin) as [a' [A [B E]]].
+    destruct (Inv _ _ _ E) as [Hd [L1 [L2 Hp]]]. destruct rd; cbn in Hd; [|discriminate].
+    exists sm, a'. cbn. repeat split; auto.
+  - destruct (in_fst_dec (pdl dv DOut) j) as [[sm Hin]|N2].
+    + destruct (chain_fmmu _ _ _ _ _ _ Co _ _ Hin) as [a' [A [B E]]].
+      destruct (Inv _ _ _ E) as [Hd [L1 [L2 Hp]]]. destruct rd; cbn in Hd; [discriminate|].
+      exists sm, a'. cbn. repeat split; auto.
+    + exfalso. rewrite Hrest in Hm; [discriminate| |]; unfold used_by; rewrite Hcoe; intros [sm X]; [exact (N1 sm X)|exact (N2 sm X)].
+Qed.
+
+(* the sync managers' memory areas of one direction do not overlap (a sane device description) *)
+Definition areas_disjoint (dv : devd) (d : dir) : Prop :=
+  forall k sm k' sm', In (k, sm) (pdl dv d) -> In (k', sm') (pdl dv d) -> k <> k' ->
+    sm_start sm + slen dv d k <= sm_start sm' \/ sm_start sm' + slen dv d k' <= sm_start sm.
+
+Lemma pdl_functional dv d k sm sm' : In (k, sm) (pdl dv d) -> In (k, sm') (pdl dv d) -> sm = sm'.
+Proof.
+  unfold pdl. intros H1 H2. apply pd_sms_spec in H1. apply pd_sms_spec in H2.
+  destruct H1 as [A _]. destruct H2 as [A' _]. rewrite A in A'. inversion A'; reflexivity.
+Qed.
+
+Lemma pdl_index_bound dv d k sm : In (k, sm) (pdl dv d) -> (k < length (d_sms dv))%nat.
+Proof.
+  unfold pdl. intros H. apply pd_sms_spec in H. destruct H as [A _]. rewrite Nat.sub_0_r in A.
+  apply nth_error_Some. rewrite A. discriminate.
+Qed.
+
+Lemma chain_subwindows_apart d dv fs : forall l a e, chain d dv fs a l e ->
+  forall k sm k' sm', In (k, sm) l -> In (k', sm') l -> k <> k' ->
+    f_ls (fs k) + slen dv d k <= f_ls (fs k') \/ f_ls (fs k') + slen dv d k' <= f_ls (fs k).
+Proof.
+  induction l as [|x r IH]; simpl; intros a e H k sm k' sm' H1 H2 Hne; [contradiction|].
+  destruct H as [Hf Hc].
+  destruct H1 as [H1|H1]; destruct H2 as [H2|H2].
+  - subst x. inversion H2; subst. contradiction.
+  - subst x. simpl in *. destruct (chain_fmmu _ _ _ _ _ _ Hc _ _ H2) as [a'' [A [_ E]]].
+    left. rewrite Hf, E. cbn. lia.
+  - subst x. simpl in *. destruct (chain_fmmu _ _ _ _ _ _ Hc _ _ H1) as [a'' [A [_ E]]].
+    right. rewrite Hf, E. cbn. lia.
+  - eapply IH; eauto.
+Qed.
